@@ -65,6 +65,33 @@ theorem axisRot_conj (Q : M3 K) (hQ : Q.transpose.mul Q = M3.one) (hd : Q.det = 
   simp only [M3.det] at hd
   ext <;> simp only [axisRot, M3.mulVec, M3.mul] <;> grind
 
+theorem M3.mulVec_neg (Q : M3 K) (u : V3 K) : V3.neg (Q.mulVec u) = Q.mulVec (V3.neg u) := by
+  ext <;> simp only [V3.neg, M3.mulVec] <;> ring
+
+/-- The cross product is covariant under rotations (`det Q = 1`). -/
+theorem cross_mulVec (Q : M3 K) (hQ : Q.transpose.mul Q = M3.one) (hd : Q.det = 1) (u v : V3 K) :
+    V3.cross (Q.mulVec u) (Q.mulVec v) = Q.mulVec (V3.cross u v) := by
+  obtain ⟨q11, q12, q13, q21, q22, q23, q31, q32, q33⟩ := Q
+  obtain ⟨a, b, c⟩ := u
+  obtain ⟨x, y, z⟩ := v
+  have h11 := congrArg M3.a11 hQ
+  have h12 := congrArg M3.a12 hQ
+  have h13 := congrArg M3.a13 hQ
+  have h22 := congrArg M3.a22 hQ
+  have h23 := congrArg M3.a23 hQ
+  have h33 := congrArg M3.a33 hQ
+  simp only [M3.transpose, M3.mul, M3.one] at h11 h12 h13 h22 h23 h33
+  simp only [M3.det] at hd
+  ext <;> simp only [V3.cross, M3.mulVec] <;> grind
+
+/-- `det (c·I + k·w wᵀ + [w]×) = (c² + |w|²)(c + k|w|²)` -/
+theorem det_rodrigues_form (cc k p q r : K) :
+    (M3.mk (cc + k * (p * p)) (k * (p * q) - r) (k * (p * r) + q)
+           (k * (q * p) + r) (cc + k * (q * q)) (k * (q * r) - p)
+           (k * (r * p) - q) (k * (r * q) + p) (cc + k * (r * r))).det
+      = (cc * cc + (p * p + q * q + r * r)) * (cc + k * (p * p + q * q + r * r)) := by
+  simp only [M3.det]; ring
+
 /-! ### NumPy broadcasting of shapes -/
 
 theorem bcastDim_one_left (b : Nat) : bcastDim 1 b = some b := by
